@@ -26,7 +26,8 @@ CHDIR_ALLOWED = {
     (BI, "XonshPathLiteralChangeDirectoryContextManager.__exit__"): "paired context manager (restore)",
     (TL, "chdir"): "paired context manager",
 }
-PWD_WRITERS = {(DS, "_change_working_directory"), (BS, "BaseShell._fix_cwd")}
+# default_env builds the *initial* mapping from os.getcwd() before a session (and any cd) exists
+PWD_WRITERS = {(DS, "_change_working_directory"), (BS, "BaseShell._fix_cwd"), ("xonsh/environ.py", "default_env")}
 STACK_MUT = {"pop", "insert", "append", "extend", "remove", "clear", "reverse", "sort"}
 
 
@@ -183,11 +184,16 @@ def check(ctx):
         for n in ast.walk(m.tree):
             if isinstance(n, ast.Assign):
                 for t in n.targets:
-                    if isinstance(t, ast.Subscript) and const_value(t.slice) in ("PWD", "OLDPWD") and ("env" in unparse(t.value).lower()):
+                    if isinstance(t, ast.Subscript) and const_value(t.slice) in ("PWD", "OLDPWD"):
                         fn = enclosing_func(n)
+                        recv = unparse(t.value)
+                        if fn is not None and isinstance(t.value, ast.Name):
+                            recv += " " + unparse(df.resolve_copy(df.all_defs(fn), t.value))
+                        if "env" not in recv.lower():
+                            continue
                         q = qual_of(fn) if fn is not None else "<module>"
                         n_w += 1
-                        ctx.ob("R1", f"{m.rel}:{q}", f"`{short(n)}`: ${const_value(t.slice)} is written only by _change_working_directory and the resynchroniser _fix_cwd", (m.rel, q) in PWD_WRITERS, key=f"{m.rel}:{q}|foreign-pwd-write", where=loc(n))
+                        ctx.ob("R1", f"{m.rel}:{q}", f"`{short(n)}`: ${const_value(t.slice)} is written only by _change_working_directory, the resynchroniser _fix_cwd and the initial default_env", (m.rel, q) in PWD_WRITERS, key=f"{m.rel}:{q}|foreign-pwd-write", where=loc(n))
     if n_w < 4:
         raise AnalysisError(f"only {n_w} $PWD/$OLDPWD writes found")
     ds = ctx.repo.module(DS)
